@@ -12,7 +12,7 @@ t0=$(date +%s)
 ( cd /verif && ./check C11 --tier "$tier" --evidence "$out/C11.json" --replays "$out/replays" ) >"$out/log" 2>&1
 code=$?
 t1=$(date +%s)
-git -C /repo checkout -- . 
+git -C /repo checkout -- . && git -C /repo clean -fdq -- prqlc/prqlc/src prqlc/prqlc-parser/src
 n=$(grep -c '^VIOLATION' "$out/log")
 echo "$name exit=$code violations=$n wall=$((t1-t0))s"
 grep -E '^violation cluster|^HARNESS' "$out/log" | cut -c1-220 | sed 's/^/    /'
